@@ -44,6 +44,9 @@ func runTransfer(raw json.RawMessage) (res *Result, err error) {
 	if err = json.Unmarshal(raw, &in); err != nil {
 		return nil, err
 	}
+	if in.Form == "self" {
+		return runSelfTransfer(&in)
+	}
 	h := &histRun{nested: map[int]any{}}
 	var dst stk.Stack
 	if in.DstCap > 0 {
@@ -208,6 +211,50 @@ func runTransfer(raw json.RawMessage) (res *Result, err error) {
 		Tags: tags, Nontrivial: len(in.Src) > 0 && dstOK}, nil
 }
 
+// runSelfTransfer: a capped Stack named as its own destination.  No model of
+// that (source and destination are one list); what is checked is the limit:
+// the call returns, does not panic, and the Stack holds at most DstCap
+// elements afterwards - and still refuses to grow past it.
+func runSelfTransfer(in *TransferInput) (*Result, error) {
+	h := &histRun{nested: map[int]any{}}
+	s := stk.And(in.DstCap)
+	if in.SrcFifo {
+		s.SetFIFO(true)
+	}
+	var sv []any
+	for _, c := range in.Src {
+		sv = append(sv, h.val(c))
+	}
+	s.Push(sv...)
+	invariant := ""
+	done := make(chan string, 1)
+	go func() {
+		defer func() {
+			if r := recover(); r != nil {
+				done <- fmt.Sprintf("s.Transfer(s) panicked: %v", r)
+			}
+		}()
+		s.Transfer(s)
+		done <- ""
+	}()
+	select {
+	case invariant = <-done:
+	case <-time.After(10 * time.Second):
+		invariant = "s.Transfer(s) on a Stack with a capacity did not return within 10s"
+	}
+	if invariant == "" {
+		if s.Len() > in.DstCap {
+			invariant = fmt.Sprintf("after s.Transfer(s) a Stack of capacity %d holds %d elements", in.DstCap, s.Len())
+		} else {
+			s.Push(1, 2, 3)
+			if s.Len() > in.DstCap || s.Avail() < 0 {
+				invariant = fmt.Sprintf("after s.Transfer(s) and one more Push a Stack of capacity %d holds %d elements (Avail %d)", in.DstCap, s.Len(), s.Avail())
+			}
+		}
+	}
+	return &Result{Coq: "", Observed: map[string]any{"len": s.Len(), "cap": in.DstCap}, Tags: []string{"form:self"}, Nontrivial: len(in.Src) > 0, Invariant: invariant}, nil
+}
+
 func genTransfer(ctx *Ctx, emit func(any, string)) {
 	maxL := 3
 	if !ctx.Quick() {
@@ -249,6 +296,20 @@ func genTransfer(ctx *Ctx, emit func(any, string)) {
 				}
 			}
 		}
+	}
+	// a capped Stack as its own destination: every capacity 1..9 x every fill
+	for cp := 1; cp <= 9; cp++ {
+		for l := 0; l <= cp; l++ {
+			in := TransferInput{Form: "self", DstPol: -1, DstCap: cp, SrcFifo: (cp+l)%2 == 1}
+			for i := 0; i < l; i++ {
+				in.Src = append(in.Src, 1+i)
+			}
+			emit(in, "exhaustive")
+		}
+	}
+	// a nil pointer with a type among the elements: it arrives as what it is
+	for _, form := range []string{"native", "alias", "ptr"} {
+		emit(TransferInput{Form: form, DstPol: -1, Src: []int{10, typedNilCode, 0, 11}, Dst: []int{typedNilCode}}, "exhaustive")
 	}
 	// long sources: 1500 elements into a destination with exactly enough room, one slot short, no limit
 	{
